@@ -138,6 +138,11 @@ def wl_snapshots(ctx, rng, case):
     # the same directory is also reachable through a symbolic link ("current" -> "here"): another spelling of every path in it
     os.symlink("here", os.path.join(sc.dir, "current"))
     lpath = os.path.join(sc.dir, "current", "filter.blm")
+    # ... and through a link into a directory BELOW it followed by "..": "jump" -> "here/nested", so jump/../filter.blm is here/filter.blm
+    # for the operating system (and sc.dir/filter.blm for anyone who collapses ".." before following the link)
+    os.makedirs(os.path.join(d1, "nested"), exist_ok=True)
+    os.symlink(os.path.join("here", "nested"), os.path.join(sc.dir, "jump"))
+    jpath = os.path.join(sc.dir, "jump", "..", "filter.blm")
     via_link = rng.random() < 0.4
     case.desc = {"est": est, "rate": rate, "bits": m, "hashes": k, "n_keys": len(keys), "opened_through_a_symlinked_directory": via_link}
     ctx.observe("bits_mod_8", m % 8)
@@ -215,7 +220,11 @@ def wl_snapshots(ctx, rng, case):
                 # export to the filter's OWN backing file, named absolutely or relatively: documented as "nothing to do"; the file stays current
                 os.chdir(rng.choice([d1, sc.other]))
                 own = rng.choice([path, os.path.relpath(path, os.getcwd()), os.path.join(os.path.relpath(os.path.dirname(path), os.getcwd()), ".", os.path.basename(path)),
-                                  lpath, os.path.relpath(lpath, sc.other), os.path.join(sc.dir, "here", "..", "current", "filter.blm")])
+                                  lpath, os.path.relpath(lpath, sc.other), os.path.join(sc.dir, "here", "..", "current", "filter.blm"),
+                                  jpath, os.path.join("..", "jump", "..", "filter.blm")])
+                if "jump" in own:
+                    os.chdir(sc.other)
+                    ctx.count("exports_to_own_file_spelled_through_a_symlink_and_dotdot")
                 if "current" in own:
                     os.chdir(sc.other)
                     ctx.count("exports_to_own_file_spelled_through_a_symlink")
@@ -256,6 +265,10 @@ def wl_snapshots(ctx, rng, case):
                 if rng.random() < 0.3:
                     given = lpath if form.startswith("abs") else os.path.relpath(lpath, sc.other)
                     os.chdir(sc.other)
+                elif rng.random() < 0.25:
+                    given = jpath if form.startswith("abs") else os.path.join("..", "jump", "..", "filter.blm")
+                    os.chdir(sc.other)
+                    ctx.count("reopens_spelled_through_a_symlink_and_dotdot")
                 f = P.BloomFilterOnDisk(given, **bl.kw_hash(hf))
                 os.chdir(rng.choice([cwd0, sc.other, d1]))
                 ctx.check(f.elements_added == orc.completed, f"reopened filter ({form}) reports another element count", got=f.elements_added, want=orc.completed)
